@@ -81,6 +81,10 @@ fn c14_faults(tier: Tier, group: u64, run: RunTape) {
                 for k in 0..3 {
                     run(vec![1, link, pkt, 3, pos, k]);
                 }
+                // `Interrupted` 1, 2, 3, 4, 7 times in a row at this flush call
+                for k in 0..5 {
+                    run(vec![1, link, pkt, 4, pos, k]);
+                }
             }
         }
     }
